@@ -361,6 +361,8 @@ func zzC02Discipline(cmd int) {
 		_, err = runPrune(dir, opts, true)
 	case 6:
 		err = applySetUpdates(dir, opts, zzString("id"), zzSetRequest(), opts.AgentID, true)
+	case 7: // set with a result attachment: its own locked section (writeResultEvent)
+		err = applySetUpdates(dir, opts, zzString("id"), map[string]string{"result.path": zzString("rpath"), "result.summary": zzString("rsummary")}, opts.AgentID, true)
 	}
 	wil, ril, nb, exl := zzLockDiscipline()
 	zzAssert(wil, "C02/struct: every write, truncate and rename on the log happens while holding the flock")
@@ -384,3 +386,4 @@ func zzC02_Plan()     { zzC02Discipline(3) }
 func zzC02_Sequence() { zzC02Discipline(4) }
 func zzC02_Prune()    { zzC02Discipline(5) }
 func zzC02_Set()      { zzC02Discipline(6) }
+func zzC02_SetResult() { zzC02Discipline(7) }
